@@ -18,6 +18,8 @@ func main() {
 	switch os.Args[1] {
 	case "func":
 		cmdFunc(os.Args[2:])
+	case "lemma":
+		cmdLemma(os.Args[2:])
 	case "check":
 		os.Exit(cmdCheck(os.Args[2:]))
 	default:
@@ -44,6 +46,30 @@ func loadAll(repo string) *Prog {
 	p.computeLockMaps()
 	p.loadSecs = time.Since(t0).Seconds()
 	return p
+}
+
+// kvc lemma [-timeout N] name...   (all lemmas when no name is given)
+func cmdLemma(args []string) {
+	fs := flag.NewFlagSet("lemma", flag.ExitOnError)
+	timeout := fs.Int("timeout", 20, "solver timeout (s)")
+	repo := fs.String("repo", "/repo", "repository")
+	fs.Parse(args)
+	p := loadAll(*repo)
+	extra := map[string]bool{}
+	for _, l := range p.lemmas {
+		if len(fs.Args()) == 0 {
+			extra[l.Name] = true
+		}
+	}
+	for _, a := range fs.Args() {
+		extra[a] = true
+	}
+	for _, or := range p.checkLemmas("", *timeout, 1, extra) {
+		fmt.Printf("   %-10s %-50s %s %.2fs  %s\n", or.Status, or.Ob.Name, or.Solver, or.Seconds, or.Ob.Pos)
+		if or.Status != "proved" {
+			fmt.Printf("              solvers: %s\n", truncate(or.Detail, 400))
+		}
+	}
 }
 
 // kvc func [-safety] [-locks] [-dump] <pkgsuffix::key> ...
